@@ -30,4 +30,5 @@ def run(idx, rep, tier):
     eager.r_attr(idx, rep, it, modules=mods, floor=10)
     misc2.r_dupcond(idx, rep, [m.name for m in idx.lib_modules()], floor=3)
     misc2.r_stiffness(idx, rep)
+    misc2.r_stiffness_chain(idx, rep)
     unpack.r_unpack(idx, rep, floor=14)
